@@ -14,7 +14,7 @@ import (
 )
 
 // Ev is one projected observable. I holds integers; bit i of F marks I[i] as
-// float64 bits (printed unsigned).
+// float64 bits (printed unsigned); F = 0xffffffff marks all of I, however long.
 type Ev struct {
 	Src int      `json:"src,omitempty"`
 	K   int      `json:"k"`
@@ -86,7 +86,8 @@ func rawInt(v int64, unsigned bool) string {
 func rawInts(vs []int64, f uint32) string {
 	p := make([]string, len(vs))
 	for i, v := range vs {
-		p[i] = rawInt(v, i < 32 && f>>uint(i)&1 == 1)
+		// an all-ones mask marks every position, also beyond the 32 the mask can name
+		p[i] = rawInt(v, f == 0xffffffff || (i < 32 && f>>uint(i)&1 == 1))
 	}
 	return "[" + strings.Join(p, ";") + "]"
 }
